@@ -156,6 +156,12 @@ func (s *jwtSigner) Hash() []byte {
 	hash.Write(stringx.ToBytes(jwk.Algorithm))
 	hash.Write(stringx.ToBytes(s.iss))
 
+	// the key itself: a reload may keep key id and algorithm but replace the key,
+	// and whatever has been cached for the old key must not be reused then
+	if thumbprint, err := jwk.Thumbprint(crypto.SHA256); err == nil {
+		hash.Write(thumbprint)
+	}
+
 	return hash.Sum(nil)
 }
 
